@@ -79,9 +79,11 @@ package object
 //@ modifies nothing
 //@ ensures result0 == uf("conv.to", any, self, arg0) && (result1 == nil) == uf("conv.to.ok", bool, self, arg0)
 
+// (C09: these converters are cached in the process-wide registries and shared by every VM: their To / From write
+// nothing but what they freshly allocate - the frame obligations of the units below are part of the C09 check.)
 // PointerConverter: *T <-> the script value of T; nil pointer <-> nil. The dispatcher guarantees kind Ptr.
 //@ func (*PointerConverter).From
-//@ props C08
+//@ props C08 C09
 //@ safety
 //@ requires c != nil && c.valueConverter != nil
 //@ requires obj != nil && kindof(obj) == 22
@@ -90,7 +92,7 @@ package object
 //@ ensures[C08.ptr.from.deref] ref(obj) != nil ==> result0 == uf("conv.from", Object, c.valueConverter, pointee(obj)) && (err == nil) == uf("conv.from.ok", bool, c.valueConverter, pointee(obj))
 
 //@ func (*PointerConverter).To
-//@ props C08
+//@ props C08 C09
 //@ safety
 //@ requires c != nil && c.valueConverter != nil && obj != nil
 //@ let convnil = uf("conv.to", any, c.valueConverter, obj) == nil
@@ -150,7 +152,7 @@ package object
 
 // SliceConverter: []T <-> list, element by element, same length, same order.
 //@ func (*SliceConverter).From
-//@ props C08
+//@ props C08 C09
 //@ safety
 //@ requires c != nil && c.valueConverter != nil && iface != nil
 //@ modifies nothing
@@ -159,7 +161,7 @@ package object
 //@ ensures[C08.slice.from.reject] !forall(k, 0, golen(iface), uf("conv.from.ok", bool, c.valueConverter, goat(iface, k))) ==> err != nil && result0 == nil
 
 //@ func (*SliceConverter).To
-//@ props C08
+//@ props C08 C09
 //@ safety
 //@ requires c != nil && c.valueConverter != nil && c.valueType != nil && obj != nil && ref(obj) != nil
 //@ let items = obj.(*List).items
@@ -173,7 +175,7 @@ package object
 
 // ArrayConverter: [N]T <-> list. A list longer than N cannot be represented and must be rejected.
 //@ func (*ArrayConverter).From
-//@ props C08
+//@ props C08 C09
 //@ safety
 //@ requires c != nil && c.valueConverter != nil && iface != nil
 //@ modifies nothing
@@ -182,7 +184,7 @@ package object
 //@ ensures[C08.array.from.reject] !forall(k, 0, golen(iface), uf("conv.from.ok", bool, c.valueConverter, goat(iface, k))) ==> err != nil && result0 == nil
 
 //@ func (*ArrayConverter).To
-//@ props C08
+//@ props C08 C09
 //@ safety
 //@ requires c != nil && c.valueConverter != nil && c.valueType != nil && c.len >= 0 && obj != nil && ref(obj) != nil
 //@ let items = obj.(*List).items
@@ -235,7 +237,7 @@ package object
 
 // MapConverter: map[string]T <-> map, key by key.
 //@ func (*MapConverter).To
-//@ props C08
+//@ props C08 C09
 //@ safety
 //@ requires c != nil && c.valueConverter != nil && c.valueType != nil && c.keyType != nil && obj != nil && ref(obj) != nil
 //@ let items = obj.(*Map).items
@@ -248,7 +250,7 @@ package object
 //@ ensures[C08.map.to.reject] typeof(obj) == *Map && !okAll ==> err != nil && result0 == nil
 
 //@ func (*MapConverter).From
-//@ props C08
+//@ props C08 C09
 //@ safety
 //@ requires c != nil && c.valueConverter != nil && obj != nil && gomap(obj) != nil
 //@ let okAll = forallA(k, string, haskey(gomap(obj), k) ==> uf("conv.from.ok", bool, c.valueConverter, gomap(obj)[k]))
